@@ -82,6 +82,7 @@ type spSim struct {
 	pods     map[int]*spPod
 	ghosts   int             // counter of BE cgroup dirs of pods the informer never reported
 	off      map[string]bool // informer objects currently unavailable
+	topoLag  int             // rounds for which this agent incarnation has not received the NodeResourceTopology yet
 
 	samples map[string][]spSample
 	kNode   string
@@ -95,7 +96,8 @@ type spSim struct {
 
 	inRound     bool
 	journal     []spWrite
-	failed      map[string]bool // dir -> a write to it failed in this round
+	failed      map[string]bool // dir/file -> a write to it failed in this round
+	wrote       map[string]bool // dir -> the agent's last cpuset.cpus write to it in this round succeeded
 	appeared    map[string]bool // dir -> created by the kubelet stub during this round
 	roundFaults int
 	readFailed  bool
@@ -195,7 +197,7 @@ func spMetaKey(res metriccache.MetricResource, props map[metriccache.MetricPrope
 
 func spNewSim(r *sim.Run) *spSim {
 	s := &spSim{r: r, pods: map[int]*spPod{}, off: map[string]bool{}, samples: map[string][]spSample{},
-		failed: map[string]bool{}, appeared: map[string]bool{}}
+		failed: map[string]bool{}, appeared: map[string]bool{}, wrote: map[string]bool{}}
 	r.Plan.GetCfg(&s.cfg)
 	s.n = len(s.cfg.Procs)
 	for _, p := range s.cfg.Procs {
@@ -280,6 +282,11 @@ func (s *spSim) setup() {
 	}
 	s.mc.kv[metriccache.NodeCPUInfoKey] = info
 	time.Sleep(137 * time.Millisecond) // rounds never coincide with the cache GC ticks of the executor
+	// the cgroup files above are what an earlier agent incarnation left behind; this one may start before its informer
+	// has the NodeResourceTopology
+	if s.cfg.StartLag > 0 {
+		s.topoLag = s.cfg.StartLag
+	}
 	s.newAgent()
 }
 
@@ -441,6 +448,9 @@ func (s *spSim) hook(real resourceexecutor.UpdateFunc) resourceexecutor.UpdateFu
 		case "write-error":
 			s.roundFaults++
 			s.failed[dir+"/"+file] = true
+			if file == system.CPUSetCPUSName {
+				s.wrote[dir] = false
+			}
 			s.journal = append(s.journal, spWrite{dir, file, u.Value(), "injected"})
 			r.Event("write %s/%s=%s injected-error", dir, file, u.Value())
 			r.Probe("fault-write-error")
@@ -470,6 +480,9 @@ func (s *spSim) hook(real resourceexecutor.UpdateFunc) resourceexecutor.UpdateFu
 			if !resourceexecutor.IsCgroupDirErr(err) {
 				s.failed[dir+"/"+file] = true
 			}
+		}
+		if file == system.CPUSetCPUSName {
+			s.wrote[dir] = err == nil
 		}
 		s.journal = append(s.journal, spWrite{dir, file, u.Value(), es})
 		r.Event("write %s/%s=%s %s", dir, file, u.Value(), es)
@@ -638,6 +651,12 @@ func (s *spSim) buildPod(p *spPod) {
 
 // ---------------------------------------------------------------- fake StatesInformer
 
+// topoSeen: the agent's informer holds the NodeResourceTopology. The object itself (topoObj: reservation, system-QoS and
+// kubelet-policy annotations) always exists in the simulated API; what varies is whether this agent incarnation has
+// received it: not while the informer object is unavailable, and not in the first rounds after a (re)start whose topology
+// delivery lags (the real informer plugin answers nil until its first successful report cycle after the start).
+func (s *spSim) topoSeen() bool { return !s.off["topo"] && s.topoLag == 0 }
+
 type spInformer struct{ s *spSim }
 
 func (i *spInformer) Run(<-chan struct{}) error { return nil }
@@ -668,7 +687,7 @@ func (i *spInformer) GetAllPods() []*statesinformer.PodMeta {
 	return out
 }
 func (i *spInformer) GetNodeTopo() *topov1alpha1.NodeResourceTopology {
-	if i.s.off["topo"] {
+	if !i.s.topoSeen() {
 		return nil
 	}
 	return i.s.topoObj()
